@@ -16,7 +16,8 @@
   the finite-reach hypothesis, the REFUTATION of general termination
   (`resolve_diverges_counterexample`: a 2-entry table with unbalanced values on which no fuel
   suffices; the Go code overflows its stack), `resolve_refines_evalT` on the flat fragment and, under the
-  key-safety hypothesis, for nested keys; the real `norm` (re-lexing): irrelevant on inputs without
+  key-safety hypothesis, for nested keys (both directions: `resolve_iff_evalT_nested_partial`); the
+  real `norm` (re-lexing): irrelevant on inputs without
   partial delimiters, divergent on a balanced table with one.
 -/
 import YtkProofs.Resolver
@@ -26,6 +27,7 @@ import YtkProofs.ResolverDiverge
 import YtkProofs.ResolverEval
 import YtkProofs.ResolverNested
 import YtkProofs.ResolverRelex
+import YtkProofs.ResolverNestedConv
 
 namespace Ytk.C11
 open Ytk.Resolver
@@ -475,6 +477,134 @@ theorem resolve_refines_evalT_nested_unconditional_refuted :
   revert this
   decide
 
+/-! ### nested keys: the CONVERSE direction (YtkProofs/ResolverNestedConv.lean)
+
+  `resolve_refines_evalT_nested_partial` says: the evaluator ends ⇒ the resolver ends, same result.
+  Here: the resolver ends (with a text or a circular reference) ⇒ the evaluator ends, same result;
+  together a fuel-free equivalence.
+
+  FULL (unconditional) statement — FALSE (`resolve_iff_evalT_nested_unconditional_refuted`, same
+  witness as `nested_needs_sepfree_counterexample`):
+
+      ∀ tt t st r, tt.WF → t.WF →
+        (Resolves id (toTable2 tt) (render2 t) st r ↔ ∃ m, evalT2 tt m t st = r ∧ r ≠ .outOfFuel)
+
+  Hypothesis: key-safety of the evaluator's run.  `keySafe tt m t st` inspects exactly what
+  `evalT2 tt m t st` executes and therefore depends on the fuel `m`; in the converse direction no
+  run of the evaluator that ends is known beforehand, so the hypothesis is stated for every
+  sufficiently large fuel:  `∃ m0, ∀ m ≥ m0, keySafe tt m t st = true`  (`KeySafeEv`).  It follows
+  * from ONE run that ends and is key-safe (`keySafe_stable`: more fuel repeats the run) — the
+    hypotheses of `resolve_refines_evalT_nested_partial`, see `resolve_iff_evalT_nested_run_partial`;
+  * from the static table-level predicate (`resolve_iff_evalT_nested_static_partial`);
+  and, the evaluator being total (`evalT2_total_nested`), it says exactly: the run is key-safe when
+  it has ended (`keySafe_eventually_iff_ended`, `resolve_iff_evalT_nested_ended_partial`).
+  Proof of the converse: induction on the resolver's fuel; the text `key:default` of a placeholder
+  is a concatenation, so "fuel n suffices for s₁ ++ s₂" is inverted into "fuel n suffices for the
+  balanced s₁" and "… for s₂ if s₁ gives a text" (`Ends.append_left/right`); sub-runs inherit
+  key-safety; results are combined by fuel monotonicity of `evalT2`. -/
+
+/-- more fuel never changes a result of the reference evaluator that was reached -/
+theorem evalT2_fuel_mono_nested {tt : TTable2} {n m : Nat} (hnm : n ≤ m) (t : Tmpl2) (st : List Toks)
+    (h : evalT2 tt n t st ≠ .outOfFuel) : evalT2 tt m t st = evalT2 tt n t st :=
+  evalT2_fuel_mono tt hnm t st h
+
+/-- once the run has ended, more fuel does not change its key-safety (the same sub-runs are
+    inspected) -/
+theorem keySafe_stable {tt : TTable2} {n m : Nat} (hnm : n ≤ m) (t : Tmpl2) (st : List Toks)
+    (h : evalT2 tt n t st ≠ .outOfFuel) : keySafe tt m t st = keySafe tt n t st :=
+  keySafe_fuel_mono tt hnm t st h
+
+/-- the two "Ends of a concatenation" inversions, at a FIXED fuel, any `norm`, any table: if fuel
+    `n` suffices for `s₁ ++ s₂` and `s₁` is delimiter-balanced, then fuel `n` suffices for `s₁`, and,
+    if `s₁` resolves to a text, for `s₂` (the converse of `resolve_append_balanced`) -/
+theorem resolve_append_balanced_inv {s₁ s₂ : Toks} {seen : List Toks} (n : Nat) (hb : Balanced s₁)
+    (h : resolve norm n tbl (s₁ ++ s₂) seen ≠ .outOfFuel) :
+    resolve norm n tbl s₁ seen ≠ .outOfFuel ∧
+      ∀ t, resolve norm n tbl s₁ seen = .ok t → resolve norm n tbl s₂ seen ≠ .outOfFuel :=
+  Ends.append_inv s₂ n s₁ seen hb h
+
+/-- `resolve_iff_evalT`, nested keys, both directions, fuel-free: on runs that are key-safe for
+    every sufficiently large fuel, the resolver ends with `r` (a text or a circular reference) on
+    the rendered template iff the reference evaluator ends with `r`, for every stack.
+    `_partial`: the key-safety hypothesis cannot be dropped (refuted below). -/
+theorem resolve_iff_evalT_nested_partial {tt : TTable2} (hT : tt.WF) (t : Tmpl2) (st : List Toks)
+    (ht : t.WF) (hk : ∃ m0, ∀ m, m0 ≤ m → keySafe tt m t st = true) (r : Res) :
+    Resolves id (toTable2 tt) (render2 t) st r ↔ ∃ m, evalT2 tt m t st = r ∧ r ≠ .outOfFuel :=
+  resolves_iff_evalT2 hT t st ht hk r
+
+/-- the converse direction on its own, with the fuels spelled out: if the resolver gives `r`
+    (not `outOfFuel`) for SOME fuel, the evaluator gives `r` for every fuel from some point on -/
+theorem evalT2_ends_of_resolve_nested_partial {tt : TTable2} (hT : tt.WF) (t : Tmpl2)
+    (st : List Toks) (ht : t.WF) (hk : ∃ m0, ∀ m, m0 ≤ m → keySafe tt m t st = true) (n : Nat)
+    (h : resolve id n (toTable2 tt) (render2 t) st ≠ .outOfFuel) :
+    ∃ k, ∀ m, k ≤ m → evalT2 tt m t st = resolve id n (toTable2 tt) (render2 t) st := by
+  obtain ⟨m, hm, hne⟩ := (resolves_iff_evalT2 hT t st ht hk _).mp ⟨n, rfl, h⟩
+  exact ⟨m, evalT2_eventually hm hne⟩
+
+/-- the same under exactly the hypotheses of `resolve_refines_evalT_nested_partial`: ONE run of the
+    evaluator that ends and is key-safe -/
+theorem resolve_iff_evalT_nested_run_partial {tt : TTable2} (hT : tt.WF) (n : Nat) (t : Tmpl2)
+    (st : List Toks) (ht : t.WF) (h : evalT2 tt n t st ≠ .outOfFuel) (hk : keySafe tt n t st = true)
+    (r : Res) :
+    Resolves id (toTable2 tt) (render2 t) st r ↔ ∃ m, evalT2 tt m t st = r ∧ r ≠ .outOfFuel :=
+  resolves_iff_evalT2 hT t st ht (KeySafeEv.of_run h hk) r
+
+/-- the same under the static table hypothesis (nothing is assumed about any run) -/
+theorem resolve_iff_evalT_nested_static_partial {tt : TTable2} (hT : tt.WF) (hS : tt.KeySafe)
+    (t : Tmpl2) (st : List Toks) (ht : t.WF) (hk : t.KeysOK) (r : Res) :
+    Resolves id (toTable2 tt) (render2 t) st r ↔ ∃ m, evalT2 tt m t st = r ∧ r ≠ .outOfFuel :=
+  resolves_iff_evalT2 hT t st ht (KeySafeEv.of_static hS hk) r
+
+/-- the reference evaluator is TOTAL — every table (well-formed or not), every template, every
+    stack: from some fuel on it gives one and the same text or circular reference.  (Measure:
+    placeholder texts of the template and the table values not yet on the stack, then the structure
+    of the template; compare `resolve_diverges_counterexample`: the RESOLVER is not total.) -/
+theorem evalT2_total_nested (tt : TTable2) (t : Tmpl2) (st : List Toks) :
+    ∃ k r, r ≠ .outOfFuel ∧ ∀ m, k ≤ m → evalT2 tt m t st = r := by
+  obtain ⟨k, hk⟩ := evalT2_total tt t st
+  exact ⟨k, _, hk, evalT2_eventually rfl hk⟩
+
+/-- hence the three forms of the key-safety hypothesis say the same thing — "the run of the
+    evaluator, when it has ended, is key-safe": key-safe for every sufficiently large fuel ⇔
+    key-safe at every fuel that suffices -/
+theorem keySafe_eventually_iff_ended (tt : TTable2) (t : Tmpl2) (st : List Toks) :
+    (∃ m0, ∀ m, m0 ≤ m → keySafe tt m t st = true) ↔
+      ∀ m, evalT2 tt m t st ≠ .outOfFuel → keySafe tt m t st = true :=
+  ⟨fun h _ hm => KeySafeEv.ended h hm, KeySafeEv.of_ended⟩
+
+/-- `resolve_iff_evalT`, nested keys, with the hypothesis in that form -/
+theorem resolve_iff_evalT_nested_ended_partial {tt : TTable2} (hT : tt.WF) (t : Tmpl2)
+    (st : List Toks) (ht : t.WF)
+    (hk : ∀ m, evalT2 tt m t st ≠ .outOfFuel → keySafe tt m t st = true) (r : Res) :
+    Resolves id (toTable2 tt) (render2 t) st r ↔ ∃ m, evalT2 tt m t st = r ∧ r ≠ .outOfFuel :=
+  resolves_iff_evalT2 hT t st ht (KeySafeEv.of_ended hk) r
+
+/-- consequence: over a well-formed table the reference evaluator ENDS on every key-safe run — with
+    the result of the resolver (which ends on every balanced table:
+    `resolve_terminates_balanced_partial`) -/
+theorem evalT2_terminates_nested_partial {tt : TTable2} (hT : tt.WF) (t : Tmpl2) (st : List Toks)
+    (ht : t.WF) (hk : ∃ m0, ∀ m, m0 ≤ m → keySafe tt m t st = true) :
+    ∃ r, r ≠ .outOfFuel ∧ (∃ k, ∀ m, k ≤ m → evalT2 tt m t st = r) ∧
+      ∃ k, ∀ m, k ≤ m → resolve id m (toTable2 tt) (render2 t) st = r := by
+  obtain ⟨r, ⟨m, hm, hne⟩, hr⟩ := evalT2_terminates hT ht hk
+  exact ⟨r, hne, ⟨m, evalT2_eventually hm hne⟩, hr.fuel⟩
+
+/-- the unconditional equivalence is refuted: `${${a}}` with a = `k:z` (the resolver ends with `z`,
+    the evaluator with the verbatim placeholder) -/
+theorem resolve_iff_evalT_nested_unconditional_refuted :
+    ¬ ∀ (tt : TTable2) (t : Tmpl2) (st : List Toks) (r : Res), tt.WF → t.WF →
+        (Resolves id (toTable2 tt) (render2 t) st r ↔ ∃ m, evalT2 tt m t st = r ∧ r ≠ .outOfFuel) := by
+  intro h
+  have h₂ : Resolves id (toTable2 [(tA, .lit [.ch 'k', .sep, .ch 'z'] .done)])
+      (render2 (.ph (.ph (.lit tA .done) .done) .done)) [] (.ok [.ch 'z']) := ⟨10, by decide, by simp⟩
+  obtain ⟨m, hm, _⟩ := (h _ _ _ _ (by decide) (by decide)).mp h₂
+  have e := evalT2_unique (tt := [(tA, .lit [.ch 'k', .sep, .ch 'z'] .done)])
+    (t := .ph (.ph (.lit tA .done) .done) .done) (st := []) (n := m) (m := 10)
+    (by rw [hm]; simp) (by decide)
+  rw [hm] at e
+  revert e
+  decide
+
 /-! ## the real `norm`: re-lexing of the resolved placeholder text (YtkProofs/ResolverRelex.lean)
 
   The driver runs the model with `norm = relex d` (`lex d ∘ unlex d`): the Go code sees the BYTES of
@@ -532,6 +662,87 @@ theorem resolve_refines_evalT_nested_relex_partial {d : Delims} (hd : d.LexOK) {
     ∃ k, ∀ m, k ≤ m → resolve (relex d) m (toTable2 tt) (render2 t) st = evalT2 tt n t st := by
   obtain ⟨k, hk'⟩ := resolve_refines_evalT_nested_partial hT n t st ht h hk
   exact ⟨k, fun m hm => by rw [resolve_relex_eq_id hd hc m _ st hs]; exact hk' m hm⟩
+
+/-- `resolve_iff_evalT_nested_partial` under the real `norm` (clean tables and templates): the
+    model as the driver runs it ends with `r` iff the reference evaluator ends with `r` -/
+theorem resolve_iff_evalT_nested_relex_partial {d : Delims} (hd : d.LexOK) {tt : TTable2}
+    (hT : tt.WF) (hc : ∀ kv ∈ toTable2 tt, Over (CleanTok d) kv.2) (t : Tmpl2) (st : List Toks)
+    (ht : t.WF) (hs : Over (CleanTok d) (render2 t))
+    (hk : ∃ m0, ∀ m, m0 ≤ m → keySafe tt m t st = true) (r : Res) :
+    Resolves (relex d) (toTable2 tt) (render2 t) st r ↔
+      ∃ m, evalT2 tt m t st = r ∧ r ≠ .outOfFuel :=
+  (resolves_relex_iff_id hd hc hs st r).trans (resolves_iff_evalT2 hT t st ht hk r)
+
+/-- … with the fuels spelled out: a result of the model under `relex d` at SOME fuel is the result
+    of the evaluator at every fuel from some point on -/
+theorem evalT2_ends_of_resolve_nested_relex_partial {d : Delims} (hd : d.LexOK) {tt : TTable2}
+    (hT : tt.WF) (hc : ∀ kv ∈ toTable2 tt, Over (CleanTok d) kv.2) (t : Tmpl2) (st : List Toks)
+    (ht : t.WF) (hs : Over (CleanTok d) (render2 t))
+    (hk : ∃ m0, ∀ m, m0 ≤ m → keySafe tt m t st = true) (n : Nat)
+    (h : resolve (relex d) n (toTable2 tt) (render2 t) st ≠ .outOfFuel) :
+    ∃ k, ∀ m, k ≤ m → evalT2 tt m t st = resolve (relex d) n (toTable2 tt) (render2 t) st := by
+  obtain ⟨m, hm, hne⟩ :=
+    ((resolves_relex_iff_id hd hc hs st _).trans (resolves_iff_evalT2 hT t st ht hk _)).mp ⟨n, rfl, h⟩
+  exact ⟨m, evalT2_eventually hm hne⟩
+
+/-- the table of `nonvacuous_nested_default` (a1 = `x:y`: NOT statically key-safe) -/
+def ttN : TTable2 := [([.ch 'b'], .lit [.ch '1'] .done),
+  ([.ch 'a', .ch '1'], .lit [.ch 'x', .sep, .ch 'y'] .done), ([.ch 'k'], .lit [.ch 'u'] .done)]
+
+/-- `${${k}:d${b}}|${a${b}:z:z}|${q${b}}|${a${u}:${b}}` -/
+def tN : Tmpl2 :=
+  .phd (.ph (.lit [.ch 'k'] .done) .done) (.lit [.ch 'd'] (.ph (.lit [.ch 'b'] .done) .done))
+    (.lit [.ch '|'] (.phd (.lit tA (.ph (.lit [.ch 'b'] .done) .done)) (.lit [.ch 'z', .sep, .ch 'z'] .done)
+      (.lit [.ch '|'] (.ph (.lit [.ch 'q'] (.ph (.lit [.ch 'b'] .done) .done))
+        (.lit [.ch '|'] (.phd (.lit tA (.ph (.lit [.ch 'u'] .done) .done))
+          (.ph (.lit [.ch 'b'] .done) .done) .done))))))
+
+/-- `${a${b}}`, circular over the table b = `1`, a1 = `${a${b}}` -/
+def tC : Tmpl2 := .ph (.lit tA (.ph (.lit [.ch 'b'] .done) .done)) .done
+
+/-- the hypotheses of `resolve_iff_evalT_nested_partial` / `…_relex_partial` on non-trivial
+    instances, and both sides of the equivalence:
+    (1) nested keys with defaults, known and unknown, a verbatim nested block, a value with a
+        separator outside key position — the table is well-formed, clean for `${ } :`, NOT statically
+        key-safe, the run is key-safe from fuel 12 on; resolver (with `id` and with the real
+        re-lexing) and evaluator end with `d1|x:y|${q${b}}|1`;
+    (2) a circular reference through a nested key: both end with `cycle a${b}`. -/
+theorem nonvacuous_nested_iff :
+    ttN.WF ∧ tN.WF ∧ ¬ ttN.KeySafe ∧
+    (∃ m0, ∀ m, m0 ≤ m → keySafe ttN m tN [] = true) ∧
+    Delims.LexOK ⟨['$', '{'], ['}'], [':']⟩ ∧
+    (∀ kv ∈ toTable2 ttN, Over (CleanTok ⟨['$', '{'], ['}'], [':']⟩) kv.2) ∧
+    Over (CleanTok ⟨['$', '{'], ['}'], [':']⟩) (render2 tN) ∧
+    Resolves id (toTable2 ttN) (render2 tN) []
+      (.ok [.ch 'd', .ch '1', .ch '|', .ch 'x', .sep, .ch 'y', .ch '|',
+        .pre, .ch 'q', .pre, .ch 'b', .suf, .suf, .ch '|', .ch '1']) ∧
+    Resolves (relex ⟨['$', '{'], ['}'], [':']⟩) (toTable2 ttN) (render2 tN) []
+      (.ok [.ch 'd', .ch '1', .ch '|', .ch 'x', .sep, .ch 'y', .ch '|',
+        .pre, .ch 'q', .pre, .ch 'b', .suf, .suf, .ch '|', .ch '1']) ∧
+    (∃ m, evalT2 ttN m tN [] = .ok [.ch 'd', .ch '1', .ch '|', .ch 'x', .sep, .ch 'y', .ch '|',
+        .pre, .ch 'q', .pre, .ch 'b', .suf, .suf, .ch '|', .ch '1']) ∧
+    (let ttC : TTable2 := [([.ch 'b'], .lit [.ch '1'] .done), ([.ch 'a', .ch '1'], tC)]
+     ttC.WF ∧ tC.WF ∧ (∃ m0, ∀ m, m0 ≤ m → keySafe ttC m tC [] = true) ∧
+     Resolves id (toTable2 ttC) (render2 tC) [] (.cycle [.ch 'a', .pre, .ch 'b', .suf]) ∧
+     ∃ m, evalT2 ttC m tC [] = .cycle [.ch 'a', .pre, .ch 'b', .suf]) := by
+  have hev : ∃ m0, ∀ m, m0 ≤ m → keySafe ttN m tN [] = true :=
+    KeySafeEv.of_run (n := 12) (by decide) (by decide)
+  have hid : Resolves id (toTable2 ttN) (render2 tN) []
+      (.ok [.ch 'd', .ch '1', .ch '|', .ch 'x', .sep, .ch 'y', .ch '|',
+        .pre, .ch 'q', .pre, .ch 'b', .suf, .suf, .ch '|', .ch '1']) := ⟨12, by decide, by simp⟩
+  have hclT : ∀ kv ∈ toTable2 ttN, Over (CleanTok ⟨['$', '{'], ['}'], [':']⟩) kv.2 := by decide
+  have hclS : Over (CleanTok ⟨['$', '{'], ['}'], [':']⟩) (render2 tN) := by decide
+  refine ⟨by decide, by decide, by decide, hev, by decide, hclT, hclS, hid,
+    (resolve_iff_evalT_nested_relex_partial (by decide) (by decide) hclT tN [] (by decide) hclS hev _).mpr
+      ((resolve_iff_evalT_nested_partial (by decide) tN [] (by decide) hev _).mp hid),
+    ⟨12, by decide⟩, ?_⟩
+  intro ttC
+  have hevC : ∃ m0, ∀ m, m0 ≤ m → keySafe ttC m tC [] = true :=
+    KeySafeEv.of_run (n := 10) (by decide) (by decide)
+  have hidC : Resolves id (toTable2 ttC) (render2 tC) [] (.cycle [.ch 'a', .pre, .ch 'b', .suf]) :=
+    ⟨10, by decide, by simp⟩
+  obtain ⟨m, hm, _⟩ := (resolve_iff_evalT_nested_partial (by decide) tC [] (by decide) hevC _).mp hidC
+  exact ⟨by decide, by decide, hevC, hidC, m, hm⟩
 
 /-- COUNTEREXAMPLE to termination for balanced tables under the real `norm`.  Table  o = "$",
     a = "${o}{a}}${o}{:${o}{a}w",  input "${:${a}${a}}" (default delimiters): NO fuel suffices.
@@ -666,9 +877,16 @@ theorem nonvacuous_evalT_cycle :
     without it the statement is false (`nested_needs_sepfree_counterexample`,
     `resolve_refines_evalT_nested_unconditional_refuted`); static table-level form of the hypothesis:
     `resolve_refines_evalT_nested_static_partial` (`TTable2.KeySafe`, `Tmpl2.KeysOK`).  Under the real `norm`:
-    `resolve_refines_evalT_nested_relex_partial` (clean tables and templates).  Not proved: the
-    converse direction (resolver ends ⇒ `evalT2` ends) for nested keys.  The harness compares with
-    an independently written Go recursive-descent reference on the full grammar.
+    `resolve_refines_evalT_nested_relex_partial` (clean tables and templates).  The CONVERSE
+    direction for nested keys (resolver ends ⇒ `evalT2` ends, same result) — PROVED:
+    `resolve_iff_evalT_nested_partial` (both directions, fuel-free; hypothesis: the run is key-safe
+    for every sufficiently large fuel, which follows from one key-safe run that ends —
+    `resolve_iff_evalT_nested_run_partial`, `keySafe_stable` — and from the static table predicate —
+    `resolve_iff_evalT_nested_static_partial`), under the real `norm`
+    `resolve_iff_evalT_nested_relex_partial`; `evalT2` is total (`evalT2_total_nested`); the
+    unconditional equivalence is refuted (`resolve_iff_evalT_nested_unconditional_refuted`).
+    The harness compares with an independently written Go recursive-descent reference on the full
+    grammar.
 -/
 
 end Ytk.C11
